@@ -29,11 +29,11 @@ inductive CalmReach : Net → Prop
   | deliver {n : Net} (i : Nat) (s s' : State) (d : Id) (b : Bytes) (orc : Oracle) (eff : List Effect) (r : Res)
       (left : Oracle) : CalmReach n → n.nodes[i]? = some s → (d, b) ∈ n.wire →
       Foca.step E s (.data b) orc = .done s' eff r left → CalmReach (n.after E i s' eff)
-  /-- a timer node `i` scheduled fires (any order, however late, possibly again); a probe timer only when the
-      round before it was answered -/
+  /-- a timer node `i` scheduled fires (any order, however late, possibly again); a probe timer that is
+      current (token of this epoch, instance connected) only when the round before it was answered -/
   | fire {n : Net} (i : Nat) (s s' : State) (t : Timer) (orc : Oracle) (eff : List Effect) (r : Res)
       (left : Oracle) : CalmReach n → n.nodes[i]? = some s → (i, t) ∈ n.timers →
-      (∀ tok, t = .probe tok → RoundAnswered s) →
+      (∀ tok, t = .probe tok → tok = s.token → s.conn = .connected → RoundAnswered s) →
       Foca.step E s (.timer t) orc = .done s' eff r left → CalmReach (n.after E i s' eff)
   /-- `announce` (to an address within the wire range), `gossip`, `broadcast`, `add_broadcast`, `set_config` -/
   | api {n : Net} (i : Nat) (s s' : State) (op : Op) (orc : Oracle) (eff : List Effect) (r : Res)
